@@ -91,6 +91,8 @@ Indef(b, ns, i)     == Splice(b, ns, i, TagBytes(b, ns[i]) \o <<128>> \o Content
 Resize(b, ns, i, k) == LET c == Content(b, ns[i])
                            c2 == IF k <= Len(c) THEN SubSeq(c, 1, k) ELSE c \o <<0>>
                        IN Splice(b, ns, i, TagBytes(b, ns[i]) \o LenOctets(Len(c2)) \o c2)
+(* contents replaced by a given value, consistently re-encoded *)
+SetValue(b, ns, i, c2) == Splice(b, ns, i, TagBytes(b, ns[i]) \o LenOctets(Len(c2)) \o c2)
 ResizeTo(n) == {k \in {1, 2, n.cl - 1, n.cl + 1} : k >= 1 /\ k # n.cl}
 
 (* position classes for the evidence (what kind of place a byte-level mutation hit) *)
